@@ -330,6 +330,85 @@ fn op_accept(variant: &str) -> String {
     }
 }
 
+/// `retry <k>`: the real `TrackerClient::run` against a loopback tracker that fails `k` announces in a row (HTTP error,
+/// garbage body, failure reason, dropped connection, in turn) and then answers well - under tokio's paused clock, so a
+/// run of hours of retries takes a moment. Reports the failures reported to the manager and whether the good reply came.
+fn op_retry(k: usize) -> String {
+    let listener = std::net::TcpListener::bind("127.0.0.1:0").expect("bind");
+    let port = listener.local_addr().unwrap().port();
+    let url = format!("http://127.0.0.1:{}/a", port);
+    let doc = format!(
+        "d8:announce{}:{}4:infod6:lengthi16e4:name1:N12:piece lengthi16e6:pieces20:AAAAABBBBBCCCCCDDDDDee",
+        url.len(),
+        url
+    );
+    let m = Metainfo::from_bencode(doc.as_bytes()).expect("metainfo");
+    let served = std::sync::Arc::new(std::sync::atomic::AtomicUsize::new(0));
+    let served2 = served.clone();
+    let server = std::thread::spawn(move || {
+        for i in 0..k {
+            let r = match i % 4 {
+                0 => serve_one(&listener, "503 Service Unavailable", b"busy"),
+                1 => serve_one(&listener, "200 OK", b"<html>not bencode</html>"),
+                2 => serve_one(&listener, "200 OK", b"d14:failure reason4:nopee"),
+                _ => {
+                    listener.set_nonblocking(false).ok();
+                    listener.accept().ok().map(|(s, _)| {
+                        drop(s);
+                        (vec![], vec![])
+                    })
+                }
+            };
+            if r.is_none() {
+                return;
+            }
+            served2.fetch_add(1, std::sync::atomic::Ordering::SeqCst);
+        }
+        if serve_one(&listener, "200 OK", &tracker_reply(&[6881])).is_some() {
+            served2.fetch_add(1, std::sync::atomic::Ordering::SeqCst);
+        }
+    });
+    let r = catch(|| {
+        let rt = tokio::runtime::Builder::new_current_thread().enable_all().start_paused(true).build().unwrap();
+        rt.block_on(async move {
+            let (tx, mut rx) = tokio::sync::mpsc::channel::<TrackerCmd>(1024);
+            let mut client = TrackerClient::new(b"-VERIF-0000000000001", m, tx);
+            let task = tokio::spawn(async move { client.run().await });
+            let mut fails = 0usize;
+            let mut got = "none";
+            // no tokio timer of our own (under the paused clock it would fire as soon as the runtime waits for a socket): the
+            // guard against a hang is a thread on the real clock
+            let (wd_tx, mut wd_rx) = tokio::sync::oneshot::channel::<()>();
+            std::thread::spawn(move || {
+                std::thread::sleep(std::time::Duration::from_secs(90));
+                let _ = wd_tx.send(());
+            });
+            loop {
+                tokio::select! {
+                    cmd = rx.recv() => match cmd {
+                        Some(TrackerCmd::Fail(_)) => fails += 1,
+                        Some(TrackerCmd::TrackerResp(_)) => {
+                            got = "resp";
+                            break;
+                        }
+                        None => break,
+                    },
+                    _ = &mut wd_rx => {
+                        got = "hang";
+                        break;
+                    }
+                }
+            }
+            let ended = task.is_finished();
+            task.abort();
+            format!("fails={} got={} task={}", fails, got, if ended && got != "resp" { "dead" } else { "ok" })
+        })
+    });
+    let out = r.unwrap_or_else(|_| "P".into());
+    drop(server);
+    format!("{} served={}", out, served.load(std::sync::atomic::Ordering::SeqCst))
+}
+
 /// `e2e <k> <kinds> <npeers>`: spawn the child and report its `E2E` line.
 fn op_e2e(k: &str, kinds: &str, npeers: &str) -> String {
     let exe = std::env::current_exe().expect("exe");
@@ -363,6 +442,7 @@ pub fn run19(args: &[&str]) -> String {
         "resp" => op_resp(&unhex(args[1])),
         "e2e" => op_e2e(args[1], args[2], args[3]),
         "accept" => op_accept(args.get(1).copied().unwrap_or("i")),
+        "retry" => op_retry(args[1].parse().unwrap()),
         "fetch" => op_fetch(args[1].parse().unwrap(), &unhex(args[2])),
         "respawn" => op_respawn(args[1].parse().unwrap(), args[2].parse().unwrap()),
         _ => panic!("unknown C19 op"),
@@ -533,6 +613,10 @@ pub fn gen19(r: &mut Rng, n: usize, thorough: bool) -> Vec<String> {
     let mut out = vec![];
     // what the manager does with a good reply and when it announces again (connection bookkeeping, model Swarm/Cand)
     out.extend(crate::sess::gen_cand(r, if thorough { n / 40 } else { n / 25 }));
+    // runs of failed announces "of any length before the first success": long ones under the paused clock
+    for k in [1usize, 5, 130, 70 + r.below(200) as usize] {
+        out.push(format!("retry {}", k));
+    }
     for k in 0..n {
         if !thorough && (k == 7 || k == 8) {
             // connections lost (no candidate left) while the tracker task is still retrying; one good announce only
